@@ -319,7 +319,11 @@ func (session *BaseInSession) handleRtcpPacket(b []byte, rAddr *net.UDPAddr) err
 			session.mu.Unlock()
 			if rrBuf != nil {
 				if rAddr != nil {
-					_ = session.audioRtcpConn.Write2Addr(rrBuf, rAddr)
+					// the sr came in on one track's socket but carries the ssrc of the other one, which may have
+					// no udp connection (never set up, or set up interleaved)
+					if session.audioRtcpConn != nil {
+						_ = session.audioRtcpConn.Write2Addr(rrBuf, rAddr)
+					}
 				} else {
 					_ = session.cmdSession.WriteInterleavedPacket(rrBuf, session.audioRtcpChannel)
 				}
@@ -331,7 +335,9 @@ func (session *BaseInSession) handleRtcpPacket(b []byte, rAddr *net.UDPAddr) err
 			session.mu.Unlock()
 			if rrBuf != nil {
 				if rAddr != nil {
-					_ = session.videoRtcpConn.Write2Addr(rrBuf, rAddr)
+					if session.videoRtcpConn != nil {
+						_ = session.videoRtcpConn.Write2Addr(rrBuf, rAddr)
+					}
 				} else {
 					_ = session.cmdSession.WriteInterleavedPacket(rrBuf, session.videoRtcpChannel)
 				}
